@@ -244,6 +244,20 @@ func VerifC18Others() {
 	vars["n"] = n
 	over := map[string]string{"b": "$b", "s": "$s", "e": "$e", "l": "$l", "n": "$n"}
 	omit := map[string]bool{}
+	// the list and the input object as a whole variable, or written as literals
+	// whose elements / fields are variables
+	if nondet.Choice("l.form", 2) == 1 {
+		over["l"] = "[$l0, $l1]"
+		vars["l0"], vars["l1"] = nondet.Float64FromInt(int64(l0)), nondet.Float64FromInt(int64(l1))
+	}
+	if nondet.Choice("n.form", 2) == 1 {
+		over["n"] = "{x: $nx}"
+		vars["nx"] = nondet.Float64FromInt(int64(nx))
+		if nyGiven {
+			over["n"] = "{x: $nx, y: $ny}"
+			vars["ny"] = ny
+		}
+	}
 	switch pGiven {
 	case 1:
 		over["p"] = "$p" // variable not supplied: null
@@ -254,7 +268,7 @@ func VerifC18Others() {
 	if oGiven {
 		over["o"] = "$o"
 	}
-	text := c18Query("query q($b: Boolean, $s: String, $e: c18Enum, $p: Int, $o: Int, $l: [Int], $n: c18Nested_InputObject) ", over, omit)
+	text := c18Query("query q($b: Boolean, $s: String, $e: c18Enum, $p: Int, $o: Int, $l: [Int], $n: c18Nested_InputObject, $l0: Int, $l1: Int, $nx: Int, $ny: Boolean) ", over, omit)
 	prepErr, execErr := c18Run(w, schema, text, vars)
 	nondet.Assert(prepErr == nil && execErr == nil, "accepted")
 	if prepErr != nil || execErr != nil {
@@ -331,7 +345,12 @@ func VerifC18Mismatch() {
 	omit := map[string]bool{}
 	vars := map[string]interface{}{}
 	header := ""
-	switch nondet.Choice("case", 12) {
+	omitAll := false
+	switch nondet.Choice("case", 14) {
+	case 12:
+		over["n"] = "{}" // nested required x missing, nothing else in the object
+	case 13:
+		omitAll = true // no argument at all although most are required
 	case 0:
 		over["i32"] = "\"str\""
 	case 1:
@@ -362,7 +381,11 @@ func VerifC18Mismatch() {
 		header = "query q($x: Int) "
 		over["i64"] = "$x" // required argument bound to a variable that is not supplied
 	}
-	prepErr, _ := c18Run(w, schema, c18Query(header, over, omit), vars)
+	text := c18Query(header, over, omit)
+	if omitAll {
+		text = "{ echo }"
+	}
+	prepErr, _ := c18Run(w, schema, text, vars)
 	nondet.Assert(prepErr != nil, "rejected-before-resolver")
 	nondet.Assert(w.calls == 0, "rejected-before-resolver")
 	if prepErr != nil {
